@@ -2,7 +2,7 @@ SPECIFICATION Spec
 CONSTANTS
   Words <- TokWords
   MinWords = 0
-  MaxWords = 3
+  MaxWords = 2
   Must = {}
   OptSet <- OptsAll
   PathAlpha <- PathAlphaDef
@@ -14,6 +14,5 @@ CONSTANTS
   RandMin = 6
   RandMax = 11
   RandCount = 0
-  SelfLen = 3
+  SelfLen = 4
 INVARIANTS SelfOK
-VIEW View
